@@ -51,6 +51,7 @@ pub struct Lexer {
     char_index: isize,
     before_from: bool,
     possible_search_root: bool,
+    root_expected: bool,
     in_roots: bool,
     raw_at_part_start: bool,
     after_open: bool,
@@ -67,6 +68,7 @@ impl Lexer {
             char_index: 0,
             before_from: true,
             possible_search_root: false,
+            root_expected: false,
             in_roots: false,
             raw_at_part_start: false,
             after_open: false,
@@ -263,6 +265,20 @@ impl Lexer {
                 s.clear();
                 Some(Lexem::CurlyClose)
             }
+            // directly after FROM, or after a comma of the root list, a bare word is the name of a
+            // search root, whatever it spells (a directory called asc, order, rx or like)
+            LexingMode::RawString
+                if self.root_expected
+                    && matches!(
+                        s.to_lowercase().as_str(),
+                        "or" | "and" | "order" | "by" | "asc" | "desc"
+                            | "eq" | "ne" | "gt" | "lt" | "ge" | "le" | "gte" | "lte" | "regexp" | "rx"
+                            | "like" | "between" | "eeq" | "ene" | "notrx" | "notlike"
+                            | "mul" | "div" | "mod" | "plus" | "minus"
+                    ) =>
+            {
+                Some(Lexem::RawString(s))
+            }
             LexingMode::RawString => match s.to_lowercase().as_str() {
                 "from" => {
                     self.before_from = false;
@@ -305,7 +321,7 @@ impl Lexer {
             Some(Lexem::Where) | Some(Lexem::Order) | Some(Lexem::Limit) | Some(Lexem::Into) => {
                 self.in_roots = false
             }
-            Some(Lexem::RawString(ref s)) if s.eq_ignore_ascii_case("group") => {
+            Some(Lexem::RawString(ref s)) if s.eq_ignore_ascii_case("group") && !self.root_expected => {
                 self.in_roots = false;
                 // the keys of GROUP BY are expressions like those of ORDER BY
                 self.after_order = true;
@@ -315,6 +331,9 @@ impl Lexer {
 
         self.possible_search_root = matches!(lexem, Some(Lexem::From))
             || (matches!(lexem, Some(Lexem::Comma)) && self.in_roots);
+        if !skipped {
+            self.root_expected = self.possible_search_root;
+        }
         self.after_operator = matches!(lexem, Some(Lexem::Operator(_)));
 
         (lexem, skipped)
